@@ -82,4 +82,29 @@ for n in (1, 2, 3, 4):
             nontrivial += check(prereq, dict(zip(prereq, sc)), dict(zip(prereq, ls)), failures)
             if len(samples) < 3 and mask and any(sc):
                 samples.append({"prereq": {k: sorted(v) for k, v in prereq.items()}, "scalar": sc, "lists": ls})
-done(cases, nontrivial, failures, "all DAGs with <= 3 stages x all output assignments; 4 stages: " + ("all" if tier == "thorough" else "40 seeded assignments per DAG"), samples)
+# ---- chains (a total order, so the fold is fully specified): one key whose value changes kind along the chain -- absent, a scalar,
+# lists that overlap: a nearer ancestor's scalar or first list REPLACES what was accumulated, two lists in a row accumulate without
+# duplicates, in order
+POOL = [None, "s", ["h1"], ["h1", "h2"], ["h4", "h1"], ["h3"]]
+LMAX = 5
+for n in range(1, LMAX + 1):
+    chain = [f"s{i}" for i in range(n)] + ["reader"]
+    for vals in itertools.product(POOL, repeat=n):
+        conn.execute("DELETE FROM stage_executions")
+        for i, r in enumerate(chain):
+            o = {} if (i >= n or vals[i] is None) else {"m": vals[i]}
+            conn.execute("INSERT INTO stage_executions VALUES ('e', ?, ?, ?)", (r, js.dumps([chain[i - 1]] if i else []), js.dumps(o)))
+        want = None
+        for v in vals:
+            if v is None:
+                continue
+            if isinstance(want, list) and isinstance(v, list):
+                want = want + [x for x in dict.fromkeys(v) if x not in want]
+            else:
+                want = list(v) if isinstance(v, list) else v
+        got = get_merged_ancestor_outputs(conn, "e", "reader")
+        cases += 1
+        nontrivial += want is not None
+        if got.get("m") != want or set(got) - {"m"}:
+            failures.append({"chain_values": list(vals), "got": got, "want": want, "why": "fold along a chain"})
+done(cases, nontrivial, failures, "chains of <= 5 ancestors x one key over absent / scalar / 4 overlapping lists; all DAGs with <= 3 stages x all output assignments; 4 stages: " + ("all" if tier == "thorough" else "40 seeded assignments per DAG"), samples)
